@@ -341,6 +341,9 @@ UniqueLaws(S, e, k, obs, led2) ==
 ContractLaws(S, e, E, k, obs) ==
   (IF E.want = "panic" /\ k = "ok" THEN {<<"C13", "must_panic">>} ELSE {})
   \cup (IF k = "abort" THEN {<<"C13", "no_crash">>, <<"C02", "no_crash">>} ELSE {})
+  \* a crash inside an operation on a BytesMut: its region (pointer, capacity, the offset encoded
+  \* in its data word) no longer described one live allocation
+  \cup (IF k = "abort" /\ e.ty = "M" THEN {<<"C04", "no_crash">>} ELSE {})
   \* the operation returned and the process died while the harness read the live handles through
   \* len / capacity / deref / is_unique: no handle "reads exactly its bytes", no truthful answer
   \cup (IF k = "abort" /\ Ret(e) = -8 THEN {<<"C01", "observe_crash">>, <<"C08", "observe_crash">>} ELSE {})
